@@ -4,6 +4,7 @@ import (
 	"fmt"
 	"go/types"
 	"sort"
+	"strings"
 
 	"golang.org/x/tools/go/ssa"
 
@@ -146,11 +147,41 @@ func (x *Exec) sel(arr, idx *smt.Term, sort string) *smt.Term {
 	if arr.Op == "store" && arr.Args[1].IntV != nil && idx.IntV != nil && arr.Args[1].IntV.Cmp(idx.IntV) != 0 {
 		return x.sel(arr.Args[0], idx, sort)
 	}
+	if arr.Op == "store" && x.knownDistinct(arr.Args[1], idx) {
+		return x.sel(arr.Args[0], idx, sort)
+	}
 	return x.b.App("select", sort, arr, idx)
 }
 
 func (x *Exec) sto(arr, idx, v *smt.Term) *smt.Term {
+	// store(store(a,i,_),i,v) = store(a,i,v)
+	if arr.Op == "store" && arr.Args[1] == idx {
+		arr = arr.Args[0]
+	}
 	return x.b.App("store", arr.Sort, arr, idx, v)
+}
+
+func (x *Exec) knownDistinct(a, c *smt.Term) bool {
+	if a == c {
+		return false
+	}
+	if (x.freshSet[a.ID] && x.isOldRef(c)) || (x.freshSet[c.ID] && x.isOldRef(a)) {
+		return true
+	}
+	if a.ID > c.ID {
+		a, c = c, a
+	}
+	return x.distinct[[2]int{a.ID, c.ID}]
+}
+
+func (x *Exec) markDistinct(a, c *smt.Term) {
+	if a.ID > c.ID {
+		a, c = c, a
+	}
+	if x.distinct == nil {
+		x.distinct = map[[2]int]bool{}
+	}
+	x.distinct[[2]int{a.ID, c.ID}] = true
 }
 
 // mergeStates merges edge states by ite on edge conditions.
@@ -281,4 +312,43 @@ func (x *Exec) locAsTerm(v *Val) *smt.Term {
 		return v.Loc.Ref
 	}
 	return nil
+}
+
+// isOldRef: the term denotes a reference that existed before the call
+// (a parameter, or a pointer read from the initial heap).
+func (x *Exec) isOldRef(t *smt.Term) bool {
+	if x.oldSet[t.ID] {
+		return true
+	}
+	return x.fromInitHeap(t)
+}
+
+// fromInitHeap reports whether t is a selector chain over a read of an initial heap.
+func (x *Exec) fromInitHeap(t *smt.Term) bool {
+	for depth := 0; depth < 12; depth++ {
+		if t.Op == "select" && len(t.Args) == 2 {
+			a := t.Args[0]
+			if len(a.Args) == 0 && strings.HasSuffix(a.Op, "_pre") {
+				return true
+			}
+			if a.Op == "select" {
+				t = a
+				continue
+			}
+			return false
+		}
+		if len(t.Args) == 1 && t.Op != "not" && t.Op != "-" {
+			t = t.Args[0]
+			continue
+		}
+		if strings.HasPrefix(t.Op, "rd_") && len(t.Args) == 3 {
+			t = t.Args[0]
+			if t.Op == "select" {
+				continue
+			}
+			return false
+		}
+		return false
+	}
+	return false
 }
